@@ -169,7 +169,14 @@ impl<L: Language, N: Analysis<L>> EGraph<L, N> {
                 }
 
                 // prefer bigger e-classes, because then we need to update less.
-                size(l) <= size(r)
+                #[allow(unused_mut)]
+                let mut l_into_r = size(l) <= size(r);
+                // (a performance preference only: the simulator may take the other choice)
+                #[cfg(slotted_egraphs_verif)]
+                if crate::verif::buggify(crate::verif::BUGGIFY_FLIP_MERGE_DIRECTION) {
+                    l_into_r = !l_into_r;
+                }
+                l_into_r
             };
 
             if right_order(l.id, r.id) {
